@@ -879,6 +879,16 @@ impl<P: Xof<SEED_SIZE>, const SEED_SIZE: usize> Vdaf for Poplar1<P, SEED_SIZE> {
 }
 
 impl<P: Xof<SEED_SIZE>, const SEED_SIZE: usize> Poplar1<P, SEED_SIZE> {
+    /// Check that this instance was configured with a usable bit length.
+    fn check_bits(&self) -> Result<(), VdafError> {
+        if self.bits == 0 {
+            return Err(VdafError::Uncategorized(
+                "Poplar1 requires a bit length of at least 1".into(),
+            ));
+        }
+        Ok(())
+    }
+
     /// Generate the domain separation tag for this VDAF. The output is used for domain separation
     /// by the XOF.
     fn domain_separation_tag(&self, usage: u16) -> [u8; 8] {
@@ -899,6 +909,7 @@ impl<P: Xof<SEED_SIZE>, const SEED_SIZE: usize> Poplar1<P, SEED_SIZE> {
         idpf_random: &[[u8; 16]; 2],
         poplar_random: &[[u8; SEED_SIZE]; 3],
     ) -> Result<(Poplar1PublicShare, Vec<Poplar1InputShare<SEED_SIZE>>), VdafError> {
+        self.check_bits()?;
         if input.len() != self.bits {
             return Err(VdafError::Uncategorized(format!(
                 "unexpected input length ({})",
@@ -1101,6 +1112,15 @@ impl<P: Xof<SEED_SIZE>, const SEED_SIZE: usize> Aggregator<SEED_SIZE, 16>
                 )))
             }
         };
+
+        // The report must have been generated for the bit length of this instance.
+        self.check_bits()?;
+        if public_share.bits() != self.bits || input_share.corr_inner.len() != self.bits - 1 {
+            return Err(VdafError::Uncategorized(format!(
+                "report does not match the configured bit length ({})",
+                self.bits
+            )));
+        }
 
         if usize::from(agg_param.level) < self.bits - 1 {
             let mut corr_prng = self.init_prng::<_, _, Field64>(
@@ -1331,6 +1351,7 @@ impl<P: Xof<SEED_SIZE>, const SEED_SIZE: usize> Collector for Poplar1<P, SEED_SI
         agg_shares: M,
         _num_measurements: usize,
     ) -> Result<Vec<u64>, VdafError> {
+        self.check_bits()?;
         let result = aggregate(
             usize::from(agg_param.level) == self.bits - 1,
             agg_param.prefixes.len(),
